@@ -217,6 +217,7 @@ def install(eng):
         vals = eng.iterate(vals)
         if not vals:
             raise PyRaise(PyExc(ValueError, ("max() arg is an empty sequence",)))
+        vals = [eng.concretize(v) if isinstance(v, SymOpt) else v for v in vals]
         if any(hasattr(v, "pyvc_binmax") for v in vals):
             return fold(vals, lambda x, y: x.pyvc_binmax(y) if hasattr(x, "pyvc_binmax") else y.pyvc_binmax(x))
         if any(isinstance(v, Sym) for v in vals):
@@ -238,6 +239,7 @@ def install(eng):
         vals = eng.iterate(vals)
         if not vals:
             raise PyRaise(PyExc(ValueError, ("min() arg is an empty sequence",)))
+        vals = [eng.concretize(v) if isinstance(v, SymOpt) else v for v in vals]
         if any(hasattr(v, "pyvc_binmin") for v in vals):
             return fold(vals, lambda x, y: x.pyvc_binmin(y) if hasattr(x, "pyvc_binmin") else y.pyvc_binmin(x))
         if any(isinstance(v, Sym) for v in vals):
